@@ -20,39 +20,39 @@ theorem u32le_take {bs : Bytes} {i k : Nat} (h : i + 3 < k) : u32le (bs.take k) 
 theorem pyHeaderOk_take (m : Nat) (buf : Bytes) :
     pyHeaderOk m (buf.take HDR) =
       (decide (byteAt buf 0 = SYNC0) && decide (byteAt buf 1 = SYNC1) && decide (u16le buf 2 = 0) &&
-        decide (u32le buf 20 ≤ m)) := by
+        decide (u32le buf 16 ≤ m)) := by
   unfold pyHeaderOk HDR
   rw [byteAt_take (by omega), byteAt_take (by omega), u16le_take (by omega), u32le_take (by omega)]
 
 theorem pyCrcOk_take (buf : Bytes) :
-    pyCrcOk (buf.take (HDR + u32le buf 20)) = pyCrcOk buf := by
+    pyCrcOk (buf.take (HDR + u32le buf 16)) = pyCrcOk buf := by
   unfold pyCrcOk HDR
   rw [u32le_take (by omega), u32le_take (by omega), List.take_take, Nat.min_self]
 
-theorem cfgPy_msgLen (m : Nat) (buf : Bytes) : (cfgPy m).msgLen buf = HDR + u32le buf 20 := by
+theorem cfgPy_msgLen (m : Nat) (buf : Bytes) : (cfgPy m).msgLen buf = HDR + u32le buf 16 := by
   unfold Cfg.msgLen cfgPy; simp only; unfold HDR; rw [u32le_take (by omega)]
 
 /-- The cached header, when there is one, is the accepted header at the front of the buffer. -/
 def PyDec.Inv (m : Nat) (s : PyDec) : Prop :=
   match s.hdr with
   | none => True
-  | some p => HDR ≤ s.buf.length ∧ pyHeaderOk m (s.buf.take HDR) = true ∧ p = u32le s.buf 20
+  | some p => HDR ≤ s.buf.length ∧ pyHeaderOk m (s.buf.take HDR) = true ∧ p = u32le s.buf 16
 
 /-- The state in which the loop stops on buffer `buf`: a header is cached exactly when 24 bytes are
 there (they then form an accepted header whose message is still incomplete). -/
 def PyDec.stopped (buf : Bytes) (processed : Nat) : PyDec :=
-  ⟨buf, if HDR ≤ buf.length then some (u32le buf 20) else none, processed⟩
+  ⟨buf, if HDR ≤ buf.length then some (u32le buf 16) else none, processed⟩
 
 theorem cfgPy_step (m : Nat) (buf : Bytes) :
     (cfgPy m).step buf =
       if buf.length < HDR then .stop
       else if pyHeaderOk m (buf.take HDR) = false then .drop
-      else if buf.length < HDR + u32le buf 20 then .stop
-      else if pyCrcOk buf = true then .emit (HDR + u32le buf 20) else .drop := by
+      else if buf.length < HDR + u32le buf 16 then .stop
+      else if pyCrcOk buf = true then .emit (HDR + u32le buf 16) else .drop := by
   unfold Cfg.step
   rw [cfgPy_msgLen]
   show (if buf.length < HDR then _ else if pyHeaderOk m (buf.take HDR) = false then _ else
-    if _ then _ else if pyCrcOk (buf.take (HDR + u32le buf 20)) = true then _ else _) = _
+    if _ then _ else if pyCrcOk (buf.take (HDR + u32le buf 16)) = true then _ else _) = _
   rw [pyCrcOk_take]
 
 /-- One loop iteration against one verdict of the scan. -/
@@ -78,7 +78,7 @@ theorem pyIter_step (m : Nat) (s : PyDec) (hinv : s.Inv m) :
       subst hp
       simp only [hok, Bool.true_eq_false, if_false]
       unfold pyBody
-      by_cases h3 : buf.length < HDR + u32le buf 20
+      by_cases h3 : buf.length < HDR + u32le buf 16
       · simp only [if_pos h3]; simp [PyDec.stopped, hl]
       · simp only [if_neg h3]
         by_cases h4 : pyCrcOk buf = true
@@ -90,12 +90,12 @@ theorem pyIter_step (m : Nat) (s : PyDec) (hinv : s.Inv m) :
       by_cases a0 : byteAt buf 0 = SYNC0
       · by_cases a1 : byteAt buf 1 = SYNC1
         · by_cases a2 : u16le buf 2 = 0
-          · by_cases a3 : u32le buf 20 ≤ m
+          · by_cases a3 : u32le buf 16 ≤ m
             · have hok : pyHeaderOk m (buf.take HDR) = true := by rw [hhdr]; simp [a0, a1, a2, a3]
               simp only [hok, Bool.true_eq_false, if_false, a0, a1, a2, ne_eq, not_true_eq_false,
-                if_neg (show ¬ u32le buf 20 > m by omega)]
+                if_neg (show ¬ u32le buf 16 > m by omega)]
               unfold pyBody
-              by_cases h3 : buf.length < HDR + u32le buf 20
+              by_cases h3 : buf.length < HDR + u32le buf 16
               · simp only [if_pos h3]
                 simp [PyDec.stopped, show HDR ≤ buf.length by omega]
               · simp only [if_neg h3]
@@ -103,7 +103,7 @@ theorem pyIter_step (m : Nat) (s : PyDec) (hinv : s.Inv m) :
                 · simp [h4]
                 · simp at h4; simp [h4]
             · have hok : pyHeaderOk m (buf.take HDR) = false := by rw [hhdr]; simp [a3]
-              simp [hok, a0, a1, a2, show u32le buf 20 > m by omega]
+              simp [hok, a0, a1, a2, show u32le buf 16 > m by omega]
           · have hok : pyHeaderOk m (buf.take HDR) = false := by rw [hhdr]; simp [a2]
             simp [hok, a0, a1, a2]
         · have hok : pyHeaderOk m (buf.take HDR) = false := by rw [hhdr]; simp [a1]
